@@ -10,6 +10,7 @@ import (
 	"os/exec"
 	"sort"
 	"strings"
+	"sync"
 	"time"
 )
 
@@ -129,6 +130,8 @@ func (p *bvPrinter) emit(t *Term) {
 		body = fmt.Sprintf("(%s %s)", smtName(t.Name), j)
 	case OBv2Int:
 		body = fmt.Sprintf("(bv2nat %s)", j)
+	case OSInt:
+		body = fmt.Sprintf("(ite (bvslt %s %s) (- (bv2nat %s) %s) (bv2nat %s))", j, bvLit(int(t.Args[0].S), bigZero), j, pow2(int(t.Args[0].S)).String(), j)
 	case OAdd, OSub, OMul:
 		if t.S > 0 {
 			body = fmt.Sprintf("(%s %s)", opNames[t.Op], j)
@@ -211,6 +214,15 @@ type liaTr struct {
 	pre     map[int][]liaField // natural field split of AddC/SubB results
 	nonlin  bool
 	hasReal bool
+	lz      map[int]*lazyVal
+	sgn     map[int]string
+	nExt    map[int]int
+}
+
+// lazyVal: an integer expression congruent to the term's value modulo 2^w, with an interval.
+type lazyVal struct {
+	expr   string
+	lo, hi *big.Int
 }
 
 type liaField struct {
@@ -248,6 +260,7 @@ func (l *liaTr) scan(t *Term, seen map[int]bool) {
 	switch t.Op {
 	case OExtract:
 		addCut(t.Args[0], t.P1, t.P0+1)
+		l.nExt[t.Args[0].ID]++
 	case OAnd:
 		if t.Args[1].IsConst() {
 			for _, r := range bitRuns(t.Args[1].K) {
@@ -420,6 +433,12 @@ func (l *liaTr) maskCond(t *Term) (string, bool) {
 func (l *liaTr) signedI(t *Term) string {
 	w := int(t.S)
 	ix := l.I(t)
+	if s, ok := l.sgn[t.ID]; ok {
+		return s
+	}
+	if t.Op == OSExt {
+		return l.signedI(t.Args[0])
+	}
 	if l.ub(t).Bit(w-1) == 0 {
 		return ix
 	}
@@ -465,6 +484,12 @@ func (l *liaTr) i(t *Term) string {
 		l.nvars++
 		if t.S == SReal {
 			l.hasReal = true
+		}
+		if t.S > 0 && l.b.SignedVars[t.Name] {
+			fmt.Fprintf(&l.sb, "(declare-const %s Int)\n(assert (and (<= (- %s) %s) (<= %s %s)))\n", n, pow2(w-1).String(), n, n, maskW(w-1).String())
+			l.lz[t.ID] = &lazyVal{n, new(big.Int).Neg(pow2(w - 1)), maskW(w - 1)}
+			l.sgn[t.ID] = n
+			return fmt.Sprintf("(ite (< %s 0) (+ %s %s) %s)", n, n, pow2(w).String(), n)
 		}
 		if t.S > 0 {
 			fmt.Fprintf(&l.sb, "(declare-const %s Int)\n(assert (and (<= 0 %s) (<= %s %s)))\n", n, n, n, maskW(w).String())
@@ -521,6 +546,8 @@ func (l *liaTr) i(t *Term) string {
 			return fmt.Sprintf("(/ %s %s)", l.I(t.Args[0]), l.I(t.Args[1]))
 		case OBv2Int:
 			return l.I(t.Args[0])
+		case OSInt:
+			return l.signedI(t.Args[0])
 		case OIte:
 			return fmt.Sprintf("(ite %s %s %s)", l.B(t.Args[0]), l.I(t.Args[1]), l.I(t.Args[2]))
 		}
@@ -537,6 +564,11 @@ func (l *liaTr) i(t *Term) string {
 	case OConcat:
 		return fmt.Sprintf("(+ (* %s %s) %s)", pow2(int(t.Args[1].S)).String(), l.I(t.Args[0]), l.I(t.Args[1]))
 	case OExtract:
+		if t.P1 == 0 && l.ringOp(t.Args[0]) && l.onlyCut(t.Args[0], t.P0+1) {
+			if _, done := l.memo[t.Args[0].ID]; !done {
+				return l.canon(t)
+			}
+		}
 		return l.bitsOf(t.Args[0], t.P1, t.P0+1)
 	case OAddC, OSubB:
 		x, y, c := t.Args[0], t.Args[1], t.Args[2]
@@ -562,15 +594,8 @@ func (l *liaTr) i(t *Term) string {
 		fmt.Fprintf(&l.sb, "(assert (= (- %s %s %s) (- %s (* %s %s))))\n", l.I(x), l.I(y), l.I(c), d, pow2(xw).String(), bo)
 		l.pre[t.ID] = []liaField{{0, xw, d}, {xw, xw + 1, bo}}
 		return fmt.Sprintf("(+ %s (* %s %s))", d, pow2(xw).String(), bo)
-	case OAdd:
-		e := fmt.Sprintf("(+ %s %s)", l.I(t.Args[0]), l.I(t.Args[1]))
-		return l.wrapped(t, e, new(big.Int).Add(l.ub(t.Args[0]), l.ub(t.Args[1])), false, nil)
-	case OSub:
-		e := fmt.Sprintf("(- %s %s)", l.I(t.Args[0]), l.I(t.Args[1]))
-		return l.wrapped(t, e, l.ub(t.Args[0]), true, l.ub(t.Args[1]))
-	case ONeg:
-		e := fmt.Sprintf("(- %s)", l.I(t.Args[0]))
-		return l.wrapped(t, e, big.NewInt(0), true, l.ub(t.Args[0]))
+	case OAdd, OSub, ONeg:
+		return l.canon(t)
 	case ONot:
 		return fmt.Sprintf("(- %s %s)", maskW(w).String(), l.I(t.Args[0]))
 	case OMul:
@@ -578,7 +603,7 @@ func (l *liaTr) i(t *Term) string {
 		ubp := new(big.Int).Mul(l.ub(x), l.ub(y))
 		var e string
 		if y.IsConst() {
-			e = fmt.Sprintf("(* %s %s)", y.K.String(), l.I(x))
+			return l.canon(t)
 		} else {
 			// symbolic product: one bounded variable per product node
 			l.I(x)
@@ -746,7 +771,7 @@ func (l *liaTr) bb(t *Term) string {
 // PrintLIA renders the assertions in integer arithmetic.  Returns error text when
 // a term is not linearisable.
 func PrintLIA(b *Builder, asserts []*Term) (script string, nodes int, err error) {
-	l := &liaTr{b: b, memo: map[int]string{}, cuts: map[int]map[int]bool{}, fields: map[int][]liaField{}, prodVar: map[int]string{}, ufDecl: map[string]bool{}, pre: map[int][]liaField{}}
+	l := &liaTr{b: b, memo: map[int]string{}, cuts: map[int]map[int]bool{}, fields: map[int][]liaField{}, prodVar: map[int]string{}, ufDecl: map[string]bool{}, pre: map[int][]liaField{}, lz: map[int]*lazyVal{}, sgn: map[int]string{}, nExt: map[int]int{}}
 	defer func() {
 		if r := recover(); r != nil {
 			if le, ok := r.(liaErr); ok {
@@ -782,6 +807,7 @@ type Solver struct {
 	in   io.WriteCloser
 	out  *bufio.Reader
 	dead bool
+	mu   sync.Mutex
 }
 
 var solverCmds = map[string][]string{
@@ -810,7 +836,12 @@ func StartSolver(name string) (*Solver, error) {
 }
 
 func (s *Solver) Close() {
-	if s == nil || s.dead {
+	if s == nil {
+		return
+	}
+	s.mu.Lock()
+	defer s.mu.Unlock()
+	if s.dead {
 		return
 	}
 	s.dead = true
@@ -1040,4 +1071,130 @@ func tokenize(s string) []string {
 		}
 	}
 	return toks
+}
+
+func (l *liaTr) ringOp(t *Term) bool {
+	switch t.Op {
+	case OAdd, OSub, ONeg:
+		return true
+	case OMul:
+		return t.Args[1].IsConst() || t.Args[0].IsConst()
+	}
+	return false
+}
+
+func (l *liaTr) onlyCut(x *Term, p int) bool {
+	if l.nExt[x.ID] != 1 {
+		return false
+	}
+	for c := range l.cuts[x.ID] {
+		if c != p && c > 0 && c < int(x.S) {
+			return false
+		}
+	}
+	return true
+}
+
+// L: lazy value (congruent modulo 2^w), built without fresh variables through ring operations.
+func (l *liaTr) L(t *Term) *lazyVal {
+	if v, ok := l.lz[t.ID]; ok {
+		return v
+	}
+	w := int(t.S)
+	var v *lazyVal
+	bin := func(op string, a, b *lazyVal) *lazyVal {
+		r := &lazyVal{expr: fmt.Sprintf("(%s %s %s)", op, a.expr, b.expr)}
+		if op == "+" {
+			r.lo, r.hi = new(big.Int).Add(a.lo, b.lo), new(big.Int).Add(a.hi, b.hi)
+		} else {
+			r.lo, r.hi = new(big.Int).Sub(a.lo, b.hi), new(big.Int).Sub(a.hi, b.lo)
+		}
+		return r
+	}
+	switch {
+	case t.Op == OConst:
+		v = &lazyVal{intLit(t.K), t.K, t.K}
+	case t.Op == OAdd:
+		v = bin("+", l.L(t.Args[0]), l.L(t.Args[1]))
+	case t.Op == OSub:
+		v = bin("-", l.L(t.Args[0]), l.L(t.Args[1]))
+	case t.Op == ONeg:
+		a := l.L(t.Args[0])
+		v = &lazyVal{fmt.Sprintf("(- %s)", a.expr), new(big.Int).Neg(a.hi), new(big.Int).Neg(a.lo)}
+	case t.Op == OMul && (t.Args[1].IsConst() || t.Args[0].IsConst()):
+		x, c := t.Args[0], t.Args[1]
+		if x.IsConst() {
+			x, c = c, x
+		}
+		k := c.K
+		if k.Bit(w-1) == 1 && w <= 64 { // use the signed representative of the constant: smaller numbers
+			k = new(big.Int).Sub(k, pow2(w))
+		}
+		a := l.L(x)
+		lo, hi := new(big.Int).Mul(a.lo, k), new(big.Int).Mul(a.hi, k)
+		if lo.Cmp(hi) > 0 {
+			lo, hi = hi, lo
+		}
+		v = &lazyVal{fmt.Sprintf("(* %s %s)", intLit(k), a.expr), lo, hi}
+	case t.Op == OExtract && t.P1 == 0 && l.ringOp(t.Args[0]) && l.onlyCut(t.Args[0], t.P0+1) && l.memo[t.Args[0].ID] == "":
+		v = l.L(t.Args[0])
+	case t.Op == OSExt:
+		x := t.Args[0]
+		xw := int(x.S)
+		ix := l.I(x)
+		if l.ub(x).Bit(xw-1) == 0 {
+			v = &lazyVal{ix, big.NewInt(0), l.ub(x)}
+		} else {
+			v = &lazyVal{fmt.Sprintf("(ite (>= %s %s) (- %s %s) %s)", ix, pow2(xw-1).String(), ix, pow2(xw).String(), ix),
+				new(big.Int).Neg(pow2(xw - 1)), maskW(xw - 1)}
+		}
+	default:
+		ix := l.I(t)
+		if pv, ok := l.lz[t.ID]; ok {
+			return pv
+		}
+		v = &lazyVal{ix, big.NewInt(0), l.ub(t)}
+	}
+	if len(v.expr) > 60 {
+		n := fmt.Sprintf("z%d", t.ID)
+		fmt.Fprintf(&l.sb, "(define-fun %s () Int %s)\n", n, v.expr)
+		v = &lazyVal{n, v.lo, v.hi}
+	}
+	l.lz[t.ID] = v
+	return v
+}
+
+// canon: canonical value in [0,2^w) of a ring-operation term: one fresh pair (r,k) unless the
+// lazy value provably lies in range already.
+func (l *liaTr) canon(t *Term) string {
+	w := int(t.S)
+	var v *lazyVal
+	if t.Op == OExtract { // low bits of a ring op
+		v = l.L(t.Args[0])
+	} else {
+		delete(l.lz, t.ID)
+		switch t.Op {
+		case OAdd, OSub, ONeg, OMul:
+			v = l.L(t)
+			delete(l.lz, t.ID) // once canonical, consumers use the canonical variable
+		}
+	}
+	m := pow2(w)
+	if v.lo.Sign() >= 0 && v.hi.Cmp(m) < 0 {
+		l.lz[t.ID] = v
+		return v.expr
+	}
+	r := l.fresh("r", maskW(w))
+	klo := new(big.Int).Div(v.lo, m) // floor division
+	if v.lo.Sign() < 0 {
+		klo = new(big.Int).Neg(new(big.Int).Div(new(big.Int).Add(new(big.Int).Neg(v.lo), maskW(w)), m))
+	}
+	khi := new(big.Int).Div(v.hi, m)
+	if v.hi.Sign() < 0 {
+		khi = new(big.Int).Neg(new(big.Int).Div(new(big.Int).Add(new(big.Int).Neg(v.hi), maskW(w)), m))
+	}
+	k := l.fresh("k", new(big.Int).Sub(khi, klo))
+	fmt.Fprintf(&l.sb, "(assert (= %s (+ %s (* %s (+ %s %s)))))\n", v.expr, r, m.String(), k, intLit(klo))
+	l.lz[t.ID] = &lazyVal{r, big.NewInt(0), l.ub(t)}
+	return r
 }
